@@ -599,6 +599,77 @@ def sshRenewWithIdentity (anow casNow backdate : Int) (old : SshCert) : Out (Ssh
 def migrateClaims (sshEnabled : Bool) (c : Option Claims) : Option Claims :=
   c.map fun c => if sshEnabled then c else { minTLS := c.minTLS, maxTLS := c.maxTLS, defTLS := c.defTLS }
 
+/-! ## Claims conversion ca.json ↔ linkedca (authority/provisioners.go claimsToLinkedca, claimsToCertificates) -/
+
+/-- `linkedca.Durations`: three strings, `""` = unset (`none`); a set one holds its parsed value -/
+structure Dur3 where
+  min : Option Int := none
+  max : Option Int := none
+  dflt : Option Int := none
+  deriving Repr, DecidableEq
+
+def Dur3.any (d : Dur3) : Bool := d.min.isSome || d.max.isSome || d.dflt.isSome
+
+/-- `linkedca.Claims` (duration part): `X509` block (`none` = nil) with its `Durations` block; `Ssh` block with
+    `Enabled` and the user / host `Durations` blocks -/
+structure LClaims where
+  x509 : Option (Option Dur3) := none
+  ssh : Option (Bool × Option Dur3 × Option Dur3) := none
+  deriving Repr, DecidableEq
+
+/-- `provisioner.Claims` duration pointers plus the `EnableSSHCA` pointer -/
+structure CClaims where
+  d : Claims := {}
+  enableSSH : Option Bool := none
+  deriving Repr, DecidableEq
+
+/-- `claimsToLinkedca` -/
+def toLinked (c : Option CClaims) : Option LClaims :=
+  c.map fun c =>
+    let x : Dur3 := ⟨c.d.minTLS, c.d.maxTLS, c.d.defTLS⟩
+    let u : Dur3 := ⟨c.d.minUser, c.d.maxUser, c.d.defUser⟩
+    let h : Dur3 := ⟨c.d.minHost, c.d.maxHost, c.d.defHost⟩
+    { x509 := if x.any then some (some x) else none,
+      ssh := if c.enableSSH = some true then some (true, (if u.any then some u else none), (if h.any then some h else none))
+             else none }
+
+/-- `claimsToCertificates` (parse errors are a separate outcome of the harness-side parser) -/
+def toCert (l : Option LClaims) : Option CClaims :=
+  l.map fun l =>
+    let x : Dur3 := (l.x509.bind id).getD {}
+    let (en, u, h) : Option Bool × Dur3 × Dur3 :=
+      match l.ssh with
+      | some (e, u, h) => (some e, u.getD {}, h.getD {})
+      | none => (none, {}, {})
+    { d := { minTLS := x.min, maxTLS := x.max, defTLS := x.dflt,
+             minUser := u.min, maxUser := u.max, defUser := u.dflt,
+             minHost := h.min, maxHost := h.max, defHost := h.dflt },
+      enableSSH := en }
+
+/-- `authority.ValidateDurations` (admin API: create / update provisioner), as coded: every set duration is
+    non-negative, `min ≤ max`, `min ≤ default`; the third comparison repeats `min > default` (a nil pointer's
+    `Value()` is 0), so `default > max` is never refused. -/
+def validateDurations (d : Dur3) : Bool :=
+  let v := fun (o : Option Int) => o.getD 0
+  if d.min.isSome ∧ v d.min < 0 then false
+  else if d.max.isSome ∧ v d.max < 0 then false
+  else if d.dflt.isSome ∧ v d.dflt < 0 then false
+  else if d.min.isSome ∧ d.max.isSome ∧ v d.min > v d.max then false
+  else if d.min.isSome ∧ d.dflt.isSome ∧ v d.min > v d.dflt then false
+  else if d.dflt.isSome ∧ d.max.isSome ∧ v d.min > v d.dflt then false
+  else true
+
+/-- `authority.ValidateClaims` -/
+def validateLClaims (l : Option LClaims) : Bool :=
+  match l with
+  | none => true
+  | some l =>
+    (match l.x509 with | some (some d) => validateDurations d | _ => true) &&
+    (match l.ssh with
+     | some (_, u, h) => (match u with | some d => validateDurations d | none => true) &&
+                         (match h with | some d => validateDurations d | none => true)
+     | none => true)
+
 /-! ## Which chain every provisioner installs (source-derived: re-extracted with go/ast on every run) -/
 
 inductive XMod where
